@@ -74,10 +74,10 @@ def eval_in(store, x, fn=None, call_eval=None, depth=0):
         if op == ",":
             return eval_in(store, x["r"], fn, call_eval, depth + 1)
         if op == "=":
-            t = lv(x["l"])
-            if t in store:
-                return store[t]
-            return eval_in(store, x["r"], fn, call_eval, depth + 1)
+            v = eval_in(store, x["r"], fn, call_eval, depth + 1)
+            if v is not None:
+                return v
+            return store.get(lv(x["l"]))
         if op in ("+=", "-=", "*=", "/=", "%=", "<<=", ">>=", "&=", "|=", "^="):
             t = lv(x["l"])
             return store.get(t)  # post-state of the target (None if unknown)
@@ -122,7 +122,7 @@ def eval_in(store, x, fn=None, call_eval=None, depth=0):
 
 
 class AbsWalk:
-    def __init__(self, fn, tracked, init=None, effect=None, call_eval=None, assume=None, max_states=200000, widen=4096):
+    def __init__(self, fn, tracked, init=None, effect=None, call_eval=None, assume=None, max_states=200000, widen=None):
         """tracked: set of lvalue texts whose constant values are followed.
         effect(b, i, x, store) -> None | dict of ghost updates (value None removes); x is the
         element with references to earlier elements left in place, so every call is seen once.
@@ -237,9 +237,10 @@ class AbsWalk:
             for i, e in enumerate(blk.elems):
                 self._apply(b, i, e["x"], store)
             # widening: a counter that runs away is dropped to unknown so that the state space stays finite
-            for k_ in [k_ for k_, v_ in store.items() if isinstance(v_, int) and not k_.startswith("$") and abs(v_) > self.widen]:
-                if abs(store[k_]) < 10 ** 8:
-                    del store[k_]
+            if self.widen is not None:
+                for k_ in [k_ for k_, v_ in store.items() if isinstance(v_, int) and not k_.startswith("$") and abs(v_) > self.widen]:
+                    if abs(store[k_]) < 10 ** 8:
+                        del store[k_]
             if b == cfg.exit:
                 self.exit_stores.append(store)
                 if on_exit:
